@@ -15,7 +15,7 @@ RULE = ('dir: estimate_SIR_prob_size_from_dir_perc on EVERY labelled digraph wit
 ASSUMPTIONS = ['"a largest SCC": any of several equally large components is accepted']
 BUDGET = {'quick': 150, 'thorough': 1200}
 CHUNK = {'quick': 100, 'thorough': 300}
-REQUIRED = ['nm_rule_answers_numpy', 'multigraph_inputs', 'nm_mapping_form_defaultdict', 'nm_mapping_form_extra_keys', 'dir_checked', 'tie_scc_cases', 'est_checked', 'dest_checked', 'nm_checked', 'nmt_checked', 'arcs_rule_checked']
+REQUIRED = ['directed_contact_networks', 'nm_rule_answers_numpy', 'multigraph_inputs', 'nm_mapping_form_defaultdict', 'nm_mapping_form_extra_keys', 'dir_checked', 'tie_scc_cases', 'est_checked', 'dest_checked', 'nm_checked', 'nmt_checked', 'arcs_rule_checked']
 INF = float('inf')
 
 
@@ -104,11 +104,16 @@ def run_case(case):
             res['nontrivial'] = 'dir:%d:%s' % (case['n'], gen.iso_key(case) if case['n'] > 4 else sorted(map(tuple, case['edges'])))
             res['sample'] = {'kind': 'dir', 'n': case['n'], 'arcs': case['edges'][:12], 'result': list(got)}
         return res
-    G, lab = gen.build_graph(case)
+    # "all contact networks": a third of the rule-based variants run on a *directed* contact network (each listed edge is the arc u->v only):
+    # the percolated graph may then only hold arcs along contacts of G
+    dirG = kind in ('nm', 'nmt', 'dest') and case['seed'] % 3 == 0 and not case.get('multi')
+    G, lab = gen.build_graph(case, directed=True) if dirG else gen.build_graph(case)
     nodes = list(G)
     nbrs = {u: list(G.neighbors(u)) for u in nodes}
     r = random.Random(case['seed'])
     captured = []
+    if dirG:
+        bump(res, 'directed_contact_networks')
 
     def capture(name):
         orig = getattr(sim, name)
